@@ -25,18 +25,20 @@ type fieldT struct {
 }
 
 var fieldTs = []fieldT{
-	{func() types.Type { return types.NewInt(8) }, "i8", "", nil},
-	{func() types.Type { return types.NewInt(16) }, "i16", "", nil},
-	{func() types.Type { return types.NewInt(32) }, "i32", "", nil},
-	{func() types.Type { return types.NewInt(64) }, "i64", "", nil},
-	{func() types.Type { return &types.FloatType{Kind: types.FloatKindFloat} }, "float", "", nil},
-	{func() types.Type { return &types.FloatType{Kind: types.FloatKindDouble} }, "double", "", nil},
+	// the scalar fields are the predeclared type objects of package types, which is what a program writes
+	{func() types.Type { return types.I8 }, "i8", "", nil},
+	{func() types.Type { return types.I16 }, "i16", "", nil},
+	{func() types.Type { return types.I32 }, "i32", "", nil},
+	{func() types.Type { return types.I64 }, "i64", "", nil},
+	{func() types.Type { return types.Float }, "float", "", nil},
+	{func() types.Type { return types.Double }, "double", "", nil},
+	{func() types.Type { return types.NewInt(24) }, "i24", "", nil},
 	{func() types.Type { return types.NewPointer(types.NewInt(1)) }, "i1*", "", nil},
-	{func() types.Type { return types.NewArray(3, types.NewInt(16)) }, "[3 x i16]", "i16", func() value.Value { return constant.NewInt(types.I64, 2) }},
+	{func() types.Type { return types.NewArray(3, types.I16) }, "[3 x i16]", "i16", func() value.Value { return constant.NewInt(types.I64, 2) }},
 	{func() types.Type { return types.NewArray(2, types.NewArray(2, types.NewInt(8))) }, "[2 x [2 x i8]]", "[2 x i8]", func() value.Value { return constant.NewInt(types.I32, 1) }},
-	{func() types.Type { return types.NewStruct(types.NewInt(8), types.NewInt(32)) }, "{ i8, i32 }", "i32", func() value.Value { return constant.NewInt(types.I32, 1) }},
+	{func() types.Type { return types.NewStruct(types.I8, types.I32) }, "{ i8, i32 }", "i32", func() value.Value { return constant.NewInt(types.I32, 1) }},
 	{func() types.Type { return types.NewStruct(&types.FloatType{Kind: types.FloatKindHalf}, types.NewInt(64)) }, "{ half, i64 }", "half", func() value.Value { return constant.NewInt(types.I32, 0) }},
-	{func() types.Type { return types.NewVector(2, types.NewInt(32)) }, "<2 x i32>", "i32", func() value.Value { return constant.NewInt(types.I64, 1) }},
+	{func() types.Type { return types.NewVector(2, types.I32) }, "<2 x i32>", "i32", func() value.Value { return constant.NewInt(types.I64, 1) }},
 }
 
 // TestAfterBodyEdit: the result type of a getelementptr follows the body the struct type has *now*. An
@@ -84,7 +86,7 @@ func TestAfterBodyEdit(t *testing.T) {
 		blk := f.NewBlock("")
 		blk.NewRet(nil)
 
-		expected := func() (string, bool) {
+		expectedIn := func(as int, vec bool) (string, bool) {
 			ft := fieldTs[fields[fi]]
 			el, more := ft.text, false
 			if deeper && ft.inner != "" {
@@ -100,9 +102,27 @@ func TestAfterBodyEdit(t *testing.T) {
 			}
 			return p, more
 		}
+		expected := func() (string, bool) { return expectedIn(as, vec) }
 		log := fmt.Sprintf("%%S = type %s; base in addrspace %d, vector base: %v (<%d x %%S*>); indices 0, %d, deeper: %v\n", S.LLString(), as, vec, vlen, fi, deeper)
 		var old []*ir.InstGetElementPtr
 		changed := false
+		// a second global variable of the same type lives in another address space; getelementptrs into it are
+		// typed in every round as well
+		g2 := m.NewGlobalDef("g2", constant.NewZeroInitializer(S))
+		g2.AddrSpace = types.AddrSpace((as + 1) % 3)
+		g2.Typ = nil
+		// every type the library has reported is remembered with its spelling: it is a value, and must spell the
+		// same whatever is typed later (the element types here are never edited; only the field list of S is)
+		type told struct {
+			t types.Type
+			s string
+		}
+		var reported []told
+		remember := func(t types.Type) string {
+			s := t.String()
+			reported = append(reported, told{t, s})
+			return s
+		}
 		round := func(r int) {
 			want, more := expected()
 			idx := func() []value.Value {
@@ -132,7 +152,18 @@ func TestAfterBodyEdit(t *testing.T) {
 			var inst *ir.InstGetElementPtr
 			if p := lx.Guard(func() {
 				inst = ir.NewGetElementPtr(S, base, idx()...)
-				judge("ir.NewGetElementPtr", inst.Type().String())
+				judge("ir.NewGetElementPtr", remember(inst.Type()))
+				// the same path into the global of the other address space
+				as2 := (as + 1) % 3
+				w2, _ := expectedIn(as2, false)
+				if !vec {
+					if got := remember(ir.NewGetElementPtr(S, g2, idx()...).Type()); got != w2 {
+						hx.Fail(rt, test, "txt", where, "%sir.NewGetElementPtr on the global in address space %d gives %s, want %s", where, as2, got, w2)
+					}
+					if got := remember(constant.NewGetElementPtr(S, g2, cidx()...).Type()); got != w2 {
+						hx.Fail(rt, test, "txt", where, "%sconstant.NewGetElementPtr on the global in address space %d gives %s, want %s", where, as2, got, w2)
+					}
+				}
 			}); p != nil {
 				hx.Fail(rt, test, "txt", where, "%sir.NewGetElementPtr panics: %s", where, p)
 			}
@@ -167,6 +198,11 @@ func TestAfterBodyEdit(t *testing.T) {
 				hx.Fail(rt, test, "txt", where, "%sthe printed module is not read back: %v %v\n%s", where, err, p, out)
 			}
 			judge("the parser, reading the printed module,", pm.Funcs[0].Blocks[0].Insts[0].(*ir.InstGetElementPtr).Type().String())
+			for _, r := range reported {
+				if now := r.t.String(); now != r.s {
+					hx.Fail(rt, test, "txt", where, "%sa type that the library reported as %s earlier in this case now reads %s: typing another getelementptr has changed it", where, r.s, now)
+				}
+			}
 			hx.Hist("rounds")
 		}
 		hx.Eval(1)
